@@ -246,6 +246,13 @@ def check_memory(case, ctx):
     if ctx.failures or wchart is None:
         ctx.stop()
 
+    # writing is repeatable: the same chart written a second time denotes the same chart (a writer that edits the
+    # chart it is given - e.g. the 0-based -> 1-based lane shift done in place - passes every single-write clause)
+    w_again = ctx.call("write(again)", m.write)
+    _check_written(ctx, "write-again", w_again, exp)
+    if ctx.failures:
+        ctx.stop()
+
     # (3) read-after-write gives the chart back; a second write denotes the same chart
     if m2 is None:
         m2 = _read(ctx, "read(written)", w, "str")
